@@ -179,20 +179,23 @@ Definition whole_module (sc : schema) (root : module) : list module :=
 Definition entry := (module * ident)%type.           (* resolvedIdentity{Module, Identity} *)
 Definition dict := list (key * entry).
 
-Fixpoint dict_get (d : dict) (k : key) : option entry :=
+Fixpoint dict_get {A} (d : list (key * A)) (k : key) : option A :=
   match d with
   | [] => None
   | (k', e) :: r => if k' =? k then Some e else dict_get r k
   end.
 
 (* dict[k] = e *)
-Fixpoint dict_set (d : dict) (k : key) (e : entry) : dict :=
+Fixpoint dict_set {A} (d : list (key * A)) (k : key) (e : A) : list (key * A) :=
   match d with
   | [] => [(k, e)]
   | (k', e') :: r => if k' =? k then (k, e) :: r else (k', e') :: dict_set r k e
   end.
 
-Definition dict_keys (d : dict) : list key := map fst d.
+Definition dict_keys {A} (d : list (key * A)) : list key := map fst d.
+
+(* the owner field of the resolvedIdentity stored under each key, as a table of its own *)
+Definition key_owners := list (key * module).
 
 Definition mk_key (modname name : string) : key := (modname ++ ":" ++ name)%string.
 
@@ -243,6 +246,15 @@ Definition lone_submodule (sc : schema) (t : owners_table) (m : module) : owners
   if owners_has t m then t
   else owners_set t m [match reg_get sc false (m_belongs m) with Some o => o | None => m end].
 
+(* resolvedIdentity.owner: written by the same statements that write the dictionary *)
+Definition register_part_owner (sc : schema) (md : module) (ko : key_owners) (m : module) : key_owners :=
+  let o := owner_for sc md m in
+  fold_left (fun t i => dict_set t (identity_key o (i_name i)) o) (m_idents m) ko.
+
+Definition pass1_owner (sc : schema) : key_owners :=
+  fold_left (fun t md => fold_left (register_part_owner sc md) (whole_module sc md) t)
+            (sorted_modules sc false) [].
+
 (* first part of resolveIdentities *)
 Definition pass1 (sc : schema) : pass1_state :=
   let st := fold_left (register_module sc) (sorted_modules sc false) ([], []) in
@@ -282,12 +294,16 @@ Fixpoint dict_find (d : dict) (owners : list module) (name : string) : option en
               end
   end.
 
-(* mod.findIdentityBase(baseStr): the base identity, None = an error is returned *)
-Definition find_identity_base (sc : schema) (d : dict) (t : owners_table) (md : module) (base_str : string)
-  : option entry :=
+(* mod.findIdentityBaseIn(owner, baseStr): the base identity, None = an error is returned.  A local name is
+   looked up in owner (when given) first *)
+Definition find_identity_base_in (sc : schema) (d : dict) (t : owners_table) (owner : option module)
+           (md : module) (base_str : string) : option entry :=
   let (base_prefix, base_name) := get_prefix base_str in
   if (base_prefix =? "") || (base_prefix =? m_prefix md) then
-    dict_find d (owners_get t md) base_name
+    match match owner with Some o => dict_get d (identity_key o base_name) | None => None end with
+    | Some e => Some e
+    | None => dict_find d (owners_get t md) base_name
+    end
   else
     match import_target (m_imports md) base_prefix with
     | None => None
@@ -297,6 +313,10 @@ Definition find_identity_base (sc : schema) (d : dict) (t : owners_table) (md : 
       | Some ext => dict_find d (owners_get t ext) base_name
       end
     end.
+
+(* mod.findIdentityBase(baseStr) *)
+Definition find_identity_base (sc : schema) (d : dict) (t : owners_table) (md : module) (base_str : string)
+  : option entry := find_identity_base_in sc d t None md base_str.
 
 (* ------------------------------------------------------------------ Values, appendIfNotIn, addChildren *)
 
@@ -364,20 +384,22 @@ Inductive err :=
 Definition state := (vals * list err)%type.
 
 (* second loop: direct children.  ord2 (keys) is the iteration order of the dictionary *)
-Definition pass2_base (sc : schema) (d : dict) (t : owners_table) (e : entry) (st : state) (b : string) : state :=
-  match find_identity_base sc d t (fst e) b with
+Definition pass2_base (sc : schema) (d : dict) (t : owners_table) (e : entry) (o : option module)
+           (st : state) (b : string) : state :=
+  match find_identity_base_in sc d t o (fst e) b with
   | None => (fst st, snd st ++ [ErrBase (did_of e) b])
   | Some be => (vset (fst st) (did_of be) (fst st (did_of be) ++ [did_of e]), snd st)
   end.
 
-Definition pass2_step (sc : schema) (d : dict) (t : owners_table) (st : state) (k : key) : state :=
+Definition pass2_step (sc : schema) (d : dict) (t : owners_table) (ko : key_owners) (st : state) (k : key)
+  : state :=
   match dict_get d k with
   | None => st
-  | Some e => fold_left (pass2_base sc d t e) (i_bases (snd e)) st
+  | Some e => fold_left (pass2_base sc d t e (dict_get ko k)) (i_bases (snd e)) st     (* i.owner *)
   end.
 
-Definition pass2 (sc : schema) (d : dict) (t : owners_table) (order : list key) : state :=
-  fold_left (pass2_step sc d t) order (vempty, []).
+Definition pass2 (sc : schema) (d : dict) (t : owners_table) (ko : key_owners) (order : list key) : state :=
+  fold_left (pass2_step sc d t ko) order (vempty, []).
 
 (* third loop: closure, sort, self-derivation test *)
 Definition pass3_step (fuel : nat) (sc : schema) (d : dict) (ost : option state) (k : key) : option state :=
@@ -416,17 +438,19 @@ Definition link_errors (sc : schema) : list err :=
 Record result := Result {
   r_dict : dict;
   r_owners : owners_table;
+  r_key_owners : key_owners;
   r_values : vals;
   r_errors : list err
 }.
 
 Definition resolve_identities (ord2 ord3 : list string -> list string) (sc : schema) : option result :=
   let (d, t) := pass1 sc in
+  let ko := pass1_owner sc in
   let ks := dict_keys d in
-  let st2 := pass2 sc d t (ord2 ks) in
+  let st2 := pass2 sc d t ko (ord2 ks) in
   match pass3 (length ks + 1) sc d (ord3 ks) st2 with
   | None => None                                       (* out of fuel: excluded by resolve_total *)
-  | Some (V, errs) => Some (Result d t V (link_errors sc ++ errs))
+  | Some (V, errs) => Some (Result d t ko V (link_errors sc ++ errs))
   end.
 
 (* what a caller reads: per dictionary key the declaration filed there and its Values *)
